@@ -108,7 +108,8 @@ type run struct {
 	R         []interface{} // the receiver's objects
 	Q         []interface{} // handler=echo: the caller's request objects (handlers.go)
 	qCanon    [][]byte
-	kept      interface{} // handler=kept: the object the handler answers every call with
+	kept      interface{}  // handler=kept: the object the handler answers every call with
+	eqAtRecv  map[int]bool // messages that equalled their snapshot when the receiver obtained them
 
 	tok    chan int
 	abort  chan struct{}
@@ -205,7 +206,14 @@ func (r *run) received(dest interface{}, inHandler bool) {
 		r.add("received-unreadable", fmt.Sprintf("the receiver's message #%d cannot be read back: %v", i, err))
 		return
 	}
-	if !proto.Equal(g, snap) {
+	if proto.Equal(g, snap) {
+		r.mu.Lock()
+		if r.eqAtRecv == nil {
+			r.eqAtRecv = map[int]bool{}
+		}
+		r.eqAtRecv[i] = true
+		r.mu.Unlock()
+	} else {
 		gb, _ := detMarshal.Marshal(g)
 		clause, detail := "received-not-equal", ""
 		if cur, err := normalize(sent); err == nil && r.k.streamed() && proto.Equal(g, cur) {
